@@ -81,6 +81,9 @@ func classifyRace(blk string) RaceReport {
 		for _, fr := range st {
 			if strings.HasPrefix(fr, libPrefix) {
 				fn := strings.TrimPrefix(fr, libPrefix)
+				if i := strings.IndexByte(fn, '['); i > 0 && !strings.HasPrefix(fn, "(") {
+					fn = fn[:i]
+				}
 				if i := strings.IndexByte(fn, '('); i > 0 && !strings.HasPrefix(fn, "(") {
 					fn = fn[:i]
 				} else if strings.HasPrefix(fn, "(") {
@@ -95,6 +98,9 @@ func classifyRace(blk string) RaceReport {
 				}
 				if i := strings.Index(fn, ".func"); i > 0 {
 					fn = fn[:i]
+				}
+				if i := strings.IndexByte(fn, '['); i > 0 {
+					fn = fn[:i] // generic instantiation
 				}
 				found = fn
 				break
